@@ -81,7 +81,7 @@ func (b *c12Backend) sched(op, name string, f func() (string, error)) error {
 	c.mu.Unlock()
 	select {
 	case <-req.grant:
-	case <-time.After(20 * time.Second):
+	case <-time.After(90 * time.Second):
 		return errC12Timeout
 	}
 	detail, err := f()
@@ -336,7 +336,7 @@ func streamC12(h *H) {
 					break
 				}
 				// a process is between operations (timer, goroutine start): wait a little
-				deadline := time.Now().Add(5 * time.Second)
+				deadline := time.Now().Add(30 * time.Second)
 				for time.Now().Before(deadline) {
 					time.Sleep(200 * time.Microsecond)
 					ctl.mu.Lock()
@@ -361,7 +361,13 @@ func streamC12(h *H) {
 					}
 				}
 				if !time.Now().Before(deadline) {
-					status = "hang"
+					// nobody asks for an operation and not everybody is done: if some goroutine is still
+					// runnable the machine is starved (the case is discarded), otherwise something blocks
+					if c12AllBlocked(buf) {
+						status = "hang"
+					} else {
+						status = "starved"
+					}
 					break
 				}
 				continue
@@ -374,8 +380,11 @@ func streamC12(h *H) {
 			close(req.grant)
 			select {
 			case <-req.done:
-			case <-time.After(10 * time.Second):
+			case <-time.After(30 * time.Second):
 				status = "op-hang"
+				if !c12AllBlocked(buf) {
+					status = "starved"
+				}
 			}
 			if status != "ok" {
 				break
@@ -394,8 +403,13 @@ func streamC12(h *H) {
 		for _, p := range procs {
 			select {
 			case <-p.done:
-			case <-time.After(30 * time.Second):
-				status = "proc-hang"
+			case <-time.After(60 * time.Second):
+				if status == "ok" {
+					status = "proc-hang"
+					if !c12AllBlocked(buf) {
+						status = "starved"
+					}
+				}
 			}
 		}
 		ctl.mu.Lock()
